@@ -210,3 +210,6 @@ package linux
 //vc:  invariant[C05] 1 "for k, v := range pairs" @normalisedOnceIfVisited forall c string :: { pairs[c] } !specialKey(c) ==> (rangevisited[c] ==> normRel(c, old(pairs[c]), pairs[c])) && (!rangevisited[c] ==> pairs[c] == old(pairs[c])) && ((c in pairs) == old(c in pairs))
 //vc:  ensures[C05] @everyOptionInNormalForm forall c string :: { pairs[c] } !specialKey(c) && (c in pairs) ==> normRel(c, old(pairs[c]), pairs[c])
 //vc:  ensures[C05] @noOptionAddedOrLost forall c string :: { c in pairs } !specialKey(c) ==> ((c in pairs) == old(c in pairs))
+
+// text handed to the device, a file or a log is never interpreted as a printf format
+//vc:constformat[C05]
